@@ -295,3 +295,63 @@ m('c16-width-changes-digits', ['C16'], 'FLAGS', [
 m('c16-rounding-sign-dropped', ['C16', 'C20'], 'PROV-FMTROUND', [
   ('src/impl_fmt.rs', "let rounder = NonDigitRoundingData::default_with_sign(this.sign);", "let rounder = NonDigitRoundingData::default_with_sign(Sign::Plus);")],
   'precision formatting rounds negatives as positives (Floor/Ceiling defaults)')
+# ---- C07
+m('c07-round-decimal-ignores-mode', ['C07'], 'PROV-CTX', [
+  ('src/context.rs', """    pub fn round_decimal(&self, n: BigDecimal) -> BigDecimal {
+        n.with_precision_round(self.precision(), self.rounding_mode())""", """    pub fn round_decimal(&self, n: BigDecimal) -> BigDecimal {
+        n.with_precision_round(self.precision(), RoundingMode::default())""")],
+  'Context::round_decimal uses the global default mode instead of its own')
+m('c07-add-refs-into-default-precision', ['C07'], 'PROV-CTX', [
+  ('src/context.rs', "*dest = sum.with_precision_round(self.precision, self.rounding)", "*dest = sum.with_precision_round(Context::default().precision, self.rounding)")],
+  'add_refs_into rounds to the default precision')
+m('c07-precision-round-drops-mode', ['C07'], 'with_precision_round->BigDecimal::with_scale_round', [
+  ('src/lib.rs', """                        .expect("precision overflow");
+
+        self.with_scale_round(new_scale, round)
+    }
+
+    #[cfg(not(rustc_1_46))]""", """                        .expect("precision overflow");
+
+        self.with_scale_round(new_scale, RoundingMode::HalfUp)
+    }
+
+    #[cfg(not(rustc_1_46))]""")],
+  'with_precision_round ignores its rounding-mode argument')
+m('c07-precision-unchecked-scale', ['C07'], 'with_precision_round', [
+  ('src/lib.rs', """                        .and_then(|prec_diff| self.scale.checked_add(prec_diff))
+                        .expect("precision overflow");
+
+        self.with_scale_round(new_scale, round)
+    }
+
+    #[cfg(not(rustc_1_46))]""", """                        .map(|prec_diff| self.scale + prec_diff)
+                        .expect("precision overflow");
+
+        self.with_scale_round(new_scale, round)
+    }
+
+    #[cfg(not(rustc_1_46))]""")],
+  'scale + (p - digits) computed with unchecked addition')
+# ---- C18
+m('c18-to-ref-wrong-scale', ['C18'], "From<&BigDecimal>>::from:projection", [
+  ('src/lib.rs', """            sign: sign,
+            digits: mag,
+            scale: n.scale,""", """            sign: sign,
+            digits: mag,
+            scale: n.scale.abs(),""")],
+  'reference view of a decimal with negative scale reports a positive one')
+m('c18-as-bigint-and-exponent-negated', ['C18'], 'as_bigint_and_exponent:projection', [
+  ('src/lib.rs', "    pub fn as_bigint_and_exponent(&self) -> (BigInt, i64) {\n        (self.int_val.clone(), self.scale)", "    pub fn as_bigint_and_exponent(&self) -> (BigInt, i64) {\n        (self.int_val.clone(), -self.scale)")],
+  'accessor returns the exponent with the wrong sign convention')
+m('c18-ref-to-owned-drops-sign', ['C18'], 'to_owned:projection', [
+  ('src/lib.rs', """        BigDecimal {
+            scale: self.scale,
+            int_val: BigInt::from_biguint(self.sign, self.digits.clone()),
+        }""", """        BigDecimal {
+            scale: self.scale,
+            int_val: BigInt::from_biguint(Sign::Plus, self.digits.clone()),
+        }""")],
+  'to_owned of a negative reference is positive')
+m('c18-from-biguint-scale-ignored', ['C18'], 'from_biguint:projection', [
+  ('src/lib.rs', "        BigDecimal::from_bigint(n, scale)\n    }", "        BigDecimal::from_bigint(n, scale.min(0))\n    }")],
+  'constructor clamps the scale it is given')
